@@ -1424,6 +1424,9 @@ func runC05(c *Ctx) {
 	}
 	wg.Wait()
 	c05Collect(c, results)
+	if c.Only < 0 {
+		c05MuxOnce(c)
+	}
 }
 
 type c05Res struct {
